@@ -77,3 +77,21 @@ impl SignedEntry {
 pub fn into_entry(key: RecordsId<'_>, value: RecordsValue<'_>) -> (r: SignedEntry)
     ensures r@ == (EntryV { id: rid(key), val: rval(value) })
 { unimplemented!() }
+
+/// `Record` (value compared by the newest-wins rule): abstractly (hash, len, timestamp)
+pub struct RecordV { pub hash: Seq<u8>, pub len: u64, pub ts: u64 }
+pub open spec fn rec_of(v: RecVal) -> RecordV { RecordV { hash: v.hash, len: v.len, ts: v.ts } }
+
+#[verifier::external_body]
+pub struct Record { _p: u8 }
+impl Record {
+    pub uninterp spec fn view(&self) -> RecordV;
+    #[verifier::external_body]
+    pub fn new(hash: Hash, len: u64, timestamp: u64) -> (r: Record)
+        ensures r@ == (RecordV { hash: hash@, len: len, ts: timestamp })
+    { unimplemented!() }
+}
+impl From<&[u8; 32]> for Hash {
+    #[verifier::external_body]
+    fn from(b: &[u8; 32]) -> (r: Hash) ensures r@ == b@ { unimplemented!() }
+}
